@@ -301,3 +301,19 @@ def mutate(src, rng):
         words = [b'import', b'let', b'true', b'1.2.3.4:99999', b'18446744073709551616', b'256.1.1.1', b'0x', b'f(x:)', b'a.b.c.d', b'm::n.o.p(', b'"|f|"', b'"\xc3\xa9"']
         w = r.choice(words); b = b[:i] + b' ' + w + b' ' + b[i:]
     return bytes(b)
+
+
+def join_lines(src, rng, p=(1, 2)):
+    """Layout variant: put several statements on one source line (adjacent lines joined by a space with probability p).
+    Lines with a comment marker are left alone (joining would swallow the next statement)."""
+    try:
+        lines = src.decode('utf-8').split('\n')
+    except UnicodeDecodeError:
+        return src
+    out = []
+    for l in lines:
+        if out and l.strip() and out[-1].strip() and '#' not in out[-1] and '//' not in out[-1] and '#' not in l and '//' not in l and rng.chance(*p):
+            out[-1] = out[-1] + ' ' + l
+        else:
+            out.append(l)
+    return '\n'.join(out).encode('utf-8')
